@@ -1033,7 +1033,8 @@ func (s *sharedEntryAttributes) validatePattern(resultChan chan<- *types.Validat
 		value := tv.GetStringVal()
 		for _, pattern := range schema.Type.Patterns {
 			if p := pattern.GetPattern(); p != "" {
-				matched, err := regexp.MatchString(p, value)
+				// YANG patterns are implicitly anchored at both ends (XSD regular expressions)
+				matched, err := regexp.MatchString("^(?:"+p+")$", value)
 				if err != nil {
 					resultChan <- types.NewValidationResultEntry(lv.Owner(), fmt.Errorf("failed compiling regex %s defined for %s", p, s.Path()), types.ValidationResultEntryTypeError)
 					continue
